@@ -1372,6 +1372,7 @@ using namespace seq;
 // known finding K2 (C10): mi_heap_delete of a heap whose tag differs from the backing heap's cannot hand its pages to the backing heap and abandons them although
 // the thread lives on; the blocks must stay valid and individually freeable (C10) -- a free by the same thread that empties such a page (or hits a full one) dereferences
 // the page's heap, which is NULL.  One dedicated case per run exercises exactly that.
+static size_t g_tdr_growth_plain = 0, g_tdr_growth_tagged = 0;
 static void run_tagged_delete(State& S) {
   S.sm.refutes_generic = "C10";
   vf_crash_refutes = "C10";
@@ -1390,6 +1391,53 @@ static void run_tagged_delete(State& S) {
   check_errors(S, "free after mi_heap_delete of a tagged heap");
   vf_cur_what = "allocation after the frees";
   for (int i = 0; i < 500; i++) { vf::Blk* b = do_alloc(S, EP_malloc, cls); if (b && (i & 1)) do_free(S, b); }
+  S.sm.verify_all("end");
+  free_all(S);
+}
+
+// known finding K2, memory side (C08): the blocks of a deleted tagged heap are freed by ANOTHER thread.  Their pages were abandoned inside segments the deleting thread still
+// owns (a long-lived block of its default heap lives there); the frees land on the pages' thread-free lists, which nothing reads again while the thread lives: the memory
+// is lost to the thread and a bounded workload grows without bound.  One dedicated case per run shows exactly that (and the same rounds with tag 0 as control: bounded).
+static void run_tagged_delete_remote(State& S) {
+  S.sm.refutes_generic = "C08";
+  vf_crash_refutes = "C08";
+  const size_t bsz = 200 + (size_t)below(S, 1800);
+  const size_t per_round = (2 * MiB) / bsz;
+  const int rounds = 40;
+  std::vector<vf::Blk*> keep;
+  size_t base[2] = {0, 0}, fin[2] = {0, 0};
+  for (int tagged = 0; tagged <= 1; tagged++) {
+    vf_cur_what = "mi_collect";
+    mi_collect(true);
+    base[tagged] = vf_os_committed_resident(0, 0);
+    for (int r = 0; r < rounds; r++) {
+      mi_heap_t* h = mi_heap_new_ex(tagged ? 1 + (r % 5) : 0, false, (mi_arena_id_t)0);
+      if (h == nullptr) vf_trip("harness", "", "mi_heap_new_ex failed");
+      std::vector<void*> ps;
+      vf_cur_what = "heap_malloc";
+      for (size_t i = 0; i < per_round; i++) { void* q = mi_heap_malloc(h, bsz); if (q) { memset(q, 0x33, bsz); ps.push_back(q); } }
+      vf::Blk* k = do_alloc(S, EP_malloc, 150 * KiB); if (k) keep.push_back(k);         // one long-lived block of the default heap per round
+      vf_cur_what = "mi_heap_delete";
+      mi_heap_delete(h);
+      vf_cur_what = "frees by another thread";
+      std::thread t([&ps]() { for (void* q : ps) mi_free(q); });
+      t.join();
+      vf_cur_what = "mi_collect";
+      mi_collect(true);
+    }
+    fin[tagged] = vf_os_committed_resident(0, 0);
+    for (vf::Blk* k : keep) do_free(S, k);
+    keep.clear();
+  }
+  g_tdr_growth_plain = (fin[0] > base[0] ? fin[0] - base[0] : 0); g_tdr_growth_tagged = (fin[1] > base[1] ? fin[1] - base[1] : 0);
+  const size_t live = (size_t)rounds * 150 * KiB;
+  vf_cur_what = "blocks of a deleted tagged heap freed by another thread";
+  if (g_tdr_growth_plain > live + 24 * MiB)
+    vf_trip("blow-up", "C08", "control (tag 0): %d rounds of {heap, 2 MiB of blocks, one long-lived 150 KiB block, delete, frees by another thread, collect} grew the committed memory by %zu bytes (%zu live)", rounds, g_tdr_growth_plain, live);
+  if (g_tdr_growth_tagged > live + 24 * MiB)
+    vf_trip("blow-up-tagged", "C08", "%d rounds of {tagged heap, 2 MiB of blocks, one long-lived 150 KiB block of the default heap, mi_heap_delete, all blocks freed by another thread, mi_collect(true)} grew the committed "
+            "memory by %zu bytes although only %zu bytes are live (the same rounds with tag 0: %zu bytes)", rounds, g_tdr_growth_tagged, live, g_tdr_growth_plain);
+  check_errors(S, "deleted tagged heaps freed remotely");
   S.sm.verify_all("end");
   free_all(S);
 }
@@ -1472,6 +1520,7 @@ int main(int argc, char** argv) {
   else if (p == "arena") run_arena_profile(S);
   else if (p == "tagged-delete") run_tagged_delete(S);
   else if (p == "target-heap") run_target_heap(S);
+  else if (p == "tagged-delete-remote") { S.cfg.tags_in_use = true; run_tagged_delete_remote(S); }
   else run_history(S);
   vf_finish_ok();
 }
